@@ -126,11 +126,11 @@ func (h *TwoPartyHandler) verifyMessage(msg *Message) error {
 		return err
 	}
 
-	if err = r.VerifyMessage(roundMsg); err != nil {
+	if err = safely(func() error { return r.VerifyMessage(roundMsg) }); err != nil {
 		return fmt.Errorf("round %d: %w", r.Number(), err)
 	}
 
-	if err = r.StoreMessage(roundMsg); err != nil {
+	if err = safely(func() error { return r.StoreMessage(roundMsg) }); err != nil {
 		return fmt.Errorf("round %d: %w", r.Number(), err)
 	}
 
